@@ -34,7 +34,30 @@ def main():
     if a.replay:
         obj = json.load(open(a.replay))
         return mod.replay(ctx, obj)
-    return mod.run(ctx)
+    # Escalation on source drift: when the library's source differs (AST-wise) from the state the
+    # models were last validated against, the quick tier is run on further seeds as well, so that the
+    # search is deepest exactly when the code has just changed.  Nothing changes on the unchanged tree.
+    changed = common.changed_files() if tier == "quick" else []
+    passes = int(os.environ.get("VERIF_DRIFT_PASSES", "3")) if changed else 1
+    rc = 0
+    for k in range(passes):
+        if k:
+            ctx = common.Ctx(a.prop, tier, seed + 7919 * k)
+            print("# source drift in %d file(s) (%s): additional quick pass %d/%d with seed %d"
+                  % (len(changed), ", ".join(changed[:4]), k + 1, passes, ctx.seed))
+        rc = mod.run(ctx)
+        if rc != 0:
+            break
+    if changed:
+        try:
+            ef = os.path.join(common.EVID, a.prop + ".json")
+            ev = json.load(open(ef))
+            ev.setdefault("coverage", {})["source_drift"] = dict(changed_files=changed, quick_passes_run=k + 1,
+                                                                 of=passes, note="evidence below is that of the last pass run")
+            json.dump(ev, open(ef, "w"), indent=1)
+        except Exception:  # noqa
+            pass
+    return rc
 
 
 if __name__ == "__main__":
